@@ -42,6 +42,7 @@ func H_ended_then_ops() {
 	if kind != 3 {
 		verifAssume(verifK.marks[i].state == kDying) // kernel contract
 	}
+	verifCheckList(w, verifLivePaths("", ""), " before the path went away") // the list was looked at before, too
 	ev, ok := verifDeliver(w, e.wd, mask, 0)
 	verifAssert(ok, "handleEvent keeps the reader running")
 	if kind == 3 {
